@@ -97,10 +97,14 @@ def generate(run_seed: int, cfg: Dict[str, Any]) -> Dict[str, Any]:
     n_tables = rk.choice([1, 2, 2, 3])
     tables = {}
     tables_b = {}
+    huge = rk.random() < float(cfg.get("huge_rate", 0.004))
     for i in range(n_tables):
         nm = f"t{i}"
         shape = rd.randrange(4)
-        tables[nm] = W.gen_table(rd, nm, n_rows=rd.choice([0, 1, 2, 3, 4, 5, 6, 8, 10]), shape=shape)
+        nr = rd.choice([0, 1, 2, 3, 4, 5, 6, 8, 10])
+        if huge and i == 0:
+            nr = 35000  # more than 100 000 cells: beyond any "small frame" path
+        tables[nm] = W.gen_table(rd, nm, n_rows=nr, shape=shape)
         # a second batch of data for the same table name (same columns): evaluations alternate between the two
         tables_b[nm] = W.gen_table(rd, nm, n_rows=rd.choice([1, 2, 3, 5, 8]), shape=shape)
     n_pipes = rk.choice([2, 3, 4, 6])
@@ -110,15 +114,19 @@ def generate(run_seed: int, cfg: Dict[str, Any]) -> Dict[str, Any]:
         pipes.append(W.gen_pipeline(rp, tables, max_steps=rk.choice([2, 4, 6]), want_diamond=rp.random() < 0.35))
     index = {n: {"kind": rs.choice(W.INDEX_KINDS), "labels": rs.sample(range(W.table_nrows(t)), W.table_nrows(t))}
              for n, t in tables.items()}
+    if huge and rk.random() < 0.7:
+        index["t0"] = {"kind": "default", "labels": []}  # the ordinary case for a large frame
     knobs = {"polars_lazy_eval": rk.random() < 0.6, "polars_lazy_frame": rk.random() < 0.3,
              "capture": rk.choice(["data", "data", "descr"])}
     n_clients = rk.choice([2, 3])
     n_ops = rk.randint(cfg.get("min_ops", 8), cfg.get("max_ops", 30))
+    if huge:
+        n_ops = min(n_ops, 10)
     abort_rate = rk.choice([0.1, 0.2, 0.35]) if faulty else 0.0
     noise_rate = rk.choice([0.1, 0.25])
     ops = []
     mutate_rate = rk.choice([0.0, 0.1, 0.2]) if faulty else 0.0
-    warmup = rk.random() < 0.5
+    warmup = rk.random() < 0.5 and not huge
     nid = 0
     if warmup:
         # every (pipeline, backend, batch) is evaluated once before anything can go wrong
@@ -434,7 +442,7 @@ def _run(scn, log: EventLog, stats: Stats):
                 if res is v:
                     raise Violation((PROP, backend, style, "returned-callers-object"), k, step)
             results[op["id"]] = res
-            if getattr(res, "shape", (0,))[0] > 8000:
+            if getattr(res, "shape", (0,))[0] > 50000:
                 stats.probe("result-too-large-not-compared")
                 continue
             if not is_determinate(pi, backend, variant):
